@@ -39,8 +39,9 @@
 (*   S2SAllDefs   vp_token-bearer requires every definition the scope maps *)
 (*                to (code: FALSE, one submission is enough)               *)
 (*   ExtClaims    introspect_extended answers with the claims established  *)
-(*                at issuance (code: FALSE, the generated response type    *)
-(*                has no MarshalJSON, AdditionalProperties are dropped)    *)
+(*                at issuance (code: TRUE since the repair of              *)
+(*                C02-extclaims; before, the generated response type had   *)
+(*                no MarshalJSON and AdditionalProperties were dropped)    *)
 (***************************************************************************)
 EXTENDS Naturals, FiniteSets, Sequences, TLC
 
@@ -67,7 +68,7 @@ CONSTANTS
     MaxSess,      \* bound on authorization-code sessions
     MaxNow, MaxAge, TokenTTL, NonceTTL, VPWindow, Skew,
     Guarded, Members, S2SAllDefs,
-    ExtClaims,    \* TRUE: introspect_extended carries the credential-derived claims like introspect does (code: FALSE)
+    ExtClaims,    \* TRUE: introspect_extended carries the credential-derived claims like introspect does (code: TRUE since the repair of C02-extclaims)
     Exts,         \* which endpoint variants are used: subset of BOOLEAN (TRUE = introspect_extended)
     Hist
 
